@@ -59,6 +59,8 @@ pub trait Vut<T: Elem>: Send {
     fn region_names(&self) -> Vec<String>;
     fn changes_dir(&self, db: &Database) -> PathBuf;
     fn computed_version(&self) -> u32;
+    /// The version recorded in the header (requested version + the entry point's layer versions).
+    fn vec_version(&self) -> u32;
     /// Runs every read path on `[from, to)`; Err((path, message)) on the first disagreement or panic.
     fn battery(&self, exp: &Expect<'_, T>, from: usize, to: usize, rng: &mut Rng, paths: &mut u64) -> Result<(), (String, String)>;
 }
@@ -403,6 +405,9 @@ macro_rules! common_methods {
         }
         fn computed_version(&self) -> u32 {
             u32::from(self.v.as_ref().unwrap().header().computed_version())
+        }
+        fn vec_version(&self) -> u32 {
+            u32::from(self.v.as_ref().unwrap().header().vec_version())
         }
     };
 }
